@@ -107,10 +107,14 @@ func (c ColumnType) decimalDowncast() ColumnType {
 	}
 	elem := c.Elem()
 	precStr, _, _ := strings.Cut(string(elem), ",")
-	precStr = strings.TrimSpace(precStr)
-	prec, err := strconv.Atoi(precStr)
-	if err != nil {
-		return c
+	// Decimal without precision is Decimal(10, 0), as in ColAuto.Infer.
+	prec := 10
+	if precStr != "" {
+		var err error
+		prec, err = strconv.Atoi(strings.TrimSpace(precStr))
+		if err != nil {
+			return c
+		}
 	}
 	switch {
 	case prec < 10:
